@@ -8,19 +8,21 @@
 EXTENDS PintRegistry, Json
 NoP == <<0, 1>>
 DA == Single("[A]", One)  DB == Single("[B]", One)  DG == Single("[G]", One)  DH == Single("[H]", One)
-Base == [units |-> [x \in {"a", "b", "g", "h", "x", "y", "z"} |->
+DR == Mul(DA, Single("[B]", R(-1)))          \* the derived dimension [R] = [A] / [B]
+Base == [units |-> [x \in {"a", "b", "g", "h", "x", "y", "z", "r"} |->
             CASE x = "a" -> [base |-> TRUE, scale |-> One, ref |-> DA]
               [] x = "b" -> [base |-> TRUE, scale |-> One, ref |-> DB]
               [] x = "g" -> [base |-> TRUE, scale |-> One, ref |-> DG]
               [] x = "h" -> [base |-> TRUE, scale |-> One, ref |-> DH]
               [] x = "x" -> [base |-> FALSE, scale |-> R(3), ref |-> Single("a", One)]
               [] x = "y" -> [base |-> FALSE, scale |-> R(5), ref |-> Single("b", One)]
-              [] x = "z" -> [base |-> FALSE, scale |-> R(2), ref |-> Single("x", One)]],     \* depends on x
-         ddims |-> <<>>]
+              [] x = "z" -> [base |-> FALSE, scale |-> R(2), ref |-> Single("x", One)]       \* depends on x
+              [] x = "r" -> [base |-> FALSE, scale |-> R(6), ref |-> Mul(Single("a", One), Single("b", R(-1)))]],
+         ddims |-> [d \in {"[R]"} |-> DR]]
 Rule(s, d, c, pe) == [src |-> s, dst |-> d, coef |-> c, pexp |-> pe]
 Pool == [c \in {"P", "Q", "S", "T"} |->
    CASE c = "P" -> [rules |-> {Rule(DA, DB, R(2), 1), Rule(DB, DG, R(3), 0)}, redefs |-> <<>>, default |-> R(2)]
-     [] c = "Q" -> [rules |-> {Rule(DA, DB, R(7), 0), Rule(DG, DH, R(5), 0), Rule(DB, DA, <<1, 7>>, 0)}, redefs |-> <<>>, default |-> NoP]
+     [] c = "Q" -> [rules |-> {Rule(DA, DB, R(7), 0), Rule(DG, DH, R(5), 0), Rule(DB, DA, <<1, 7>>, 0), Rule(DR, DG, R(17), 0)}, redefs |-> <<>>, default |-> NoP]
      [] c = "S" -> [rules |-> {Rule(DA, DG, R(11), 0), Rule(DH, DA, R(13), -1)}, redefs |-> <<>>, default |-> R(4)]
      [] c = "T" -> [rules |-> {Rule(DB, DA, R(9), 0)}, redefs |-> <<[unit |-> "x", scale |-> R(4), ref |-> Single("a", One)]>>, default |-> NoP]]
 Sys == [x \in {} |-> [old |-> "", new |-> ""]]
@@ -28,19 +30,19 @@ Kw == {<<5, 1>>}
 Ops11 == {"enable"}
 Names == {"a", "b", "g", "h", "x", "y", "z"}
 Probes11 == {<<"a", "b">>, <<"a", "g">>, <<"a", "h">>, <<"b", "a">>, <<"b", "g">>, <<"g", "h">>, <<"h", "a">>, <<"h", "b">>,
-             <<"x", "y">>, <<"y", "x">>, <<"z", "g">>, <<"x", "a">>, <<"z", "a">>, <<"y", "b">>, <<"g", "a">>, <<"h", "g">>}
+             <<"x", "y">>, <<"y", "x">>, <<"z", "g">>, <<"x", "a">>, <<"z", "a">>, <<"y", "b">>, <<"g", "a">>, <<"h", "g">>, <<"r", "g">>, <<"r", "h">>}
 Keys11 == {<<"conv", pr[1], pr[2]>> : pr \in Probes11}
 UnitJ(d) == [base |-> d.base, scale |-> d.scale, ref |-> HashKey(d.ref), prefixed |-> FALSE]
 CtxJ(c) == [rules |-> {[src |-> HashKey(r.src), dst |-> HashKey(r.dst), coef |-> r.coef, pexp |-> r.pexp] : r \in c.rules},
             redefs |-> [i \in 1..Len(c.redefs) |-> [unit |-> c.redefs[i].unit, scale |-> c.redefs[i].scale, ref |-> HashKey(c.redefs[i].ref)]],
             default |-> c.default]
 ASSUME PrintT(<<"CONST", ToJson([units |-> [n \in DOMAIN Base.units |-> UnitJ(Base.units[n])],
-                                 ctxs |-> [c \in DOMAIN Pool |-> CtxJ(Pool[c])], systems |-> Sys, newunit |-> UnitJ(NewUnit),
+                                 ctxs |-> [c \in DOMAIN Pool |-> CtxJ(Pool[c])], systems |-> Sys, ddims |-> [d \in DOMAIN Base.ddims |-> HashKey(Base.ddims[d])], newunit |-> UnitJ(NewUnit),
                                  probes |-> Keys11])>>)
 
 \* ---- laws (C11) ----
 Graph == GraphOf(active)
-Dims == {DA, DB, DG, DH}
+Dims == {DA, DB, DG, DH, DR}
 \* every path the search returns is a path of the graph, and none shorter exists (bounded: paths of <= 3 edges)
 AllSeqs == UNION {[1..n -> Dims] : n \in 2..4}
 PathsUpTo3(src, dst) == {p \in AllSeqs : p[1] = src /\ p[Len(p)] = dst /\ \A i \in 1..(Len(p) - 1) : <<p[i], p[i + 1]>> \in Graph}
